@@ -43,8 +43,18 @@ class Agg:
         self.nontrivial = 0
         self.xcheck = {}  # solver -> {agree|DISAGREE|inconclusive: n}
         self.xcheck_bad = []
+        self.contribs = {}  # config name -> tag -> [ {payload, values} ]
+        self.aborts_cfg = {}  # config name -> {reason: n}
 
     def merge(self, o):
+        for c, d in o.contribs.items():
+            t = self.contribs.setdefault(c, {})
+            for tag, rs in d.items():
+                t.setdefault(tag, []).extend(rs)
+        for c, d in o.aborts_cfg.items():
+            t = self.aborts_cfg.setdefault(c, {})
+            for k, v in d.items():
+                t[k] = t.get(k, 0) + v
         self.paths += o.paths
         self.runs += o.runs
         self.decisions += o.decisions
@@ -225,6 +235,16 @@ def run_path(fn, cfg, prefix, draw_budget, agg, cfg_name, validate):
             )
     else:
         agg.aborts[status] = agg.aborts.get(status, 0) + 1
+        d = agg.aborts_cfg.setdefault(cfg_name, {})
+        d[status] = d.get(status, 0) + 1
+    if ctx.contribs and status == "done" and not ctx.violations:
+        try:
+            cm = ctx.get_model()
+        except PathAbort:
+            cm = None
+        cvals = ctx.model_values(cm) if cm is not None else None
+        for tag, payload in ctx.contribs:
+            agg.contribs.setdefault(cfg_name, {}).setdefault(tag, []).append({"payload": payload, "values": cvals})
     # candidate violations: replay against the real code before believing them
     for v in ctx.violations:
         rec = {"label": v.label, "sig": v.sig, "detail": v.detail, "config": cfg, "config_name": cfg_name, "values": v.values}
